@@ -561,7 +561,7 @@ func runC19(c *core.Ctx) {
 	c.Count("descriptor_lists", int64(len(dl)))
 	c.Count("descriptor_stacks", int64(len(stacks)))
 	c.Sample(map[string]any{"api": "Sort/SortSlice/Stream.Sort/Stream.SortByIndex (+interface{} twins)", "list": fmt.Sprint(lists[200]), "comparators": "K1 asc, K1 desc, K2 asc, composite, all-equal"})
-	c.Sample(map[string]any{"api": "descriptor sorts", "list": fmt.Sprint(dl[len(dl)-1][:3]), "stack": c19StackString(stacks[len(stacks)/2])})
+	c.Sample(map[string]any{"api": "descriptor sorts", "list": fmt.Sprint(dl[len(dl)-1][:min(3, len(dl[len(dl)-1]))]), "stack": c19StackString(stacks[len(stacks)/2])})
 	c.Sample(map[string]any{"stack": c19StackString(stacks[7]), "list": fmt.Sprint(dl[50])})
 }
 
